@@ -77,7 +77,7 @@ pub fn main(args: &[String]) -> i32 {
         // state is most exposed when several threads scan such text with the same compiled data)
         const ALPHA: &[char] = &['a', 'b', 'c', 'x', '0', '1', '_', ' ', '\n', 'é', 'q', '€', '😀', 'α', 'β', 'ω', 'ж', 'я', '日', '本', 'Ω', 'Ж'];
         let mut texts: Vec<String> = (0..2).map(|_| { let len = r.gen_range(0..=40); (0..len).map(|_| *ALPHA.choose(&mut r).unwrap()).collect() }).collect();
-        texts.push({ let len = r.gen_range(300..=1200); (0..len).map(|_| *ALPHA[8..].choose(&mut r).unwrap()).collect() });
+        texts.push({ let len = r.gen_range(150..=350); (0..len).map(|_| *ALPHA[8..].choose(&mut r).unwrap()).collect() });
         // specification-side tables
         let mut charset: BTreeSet<char> = BTreeSet::new();
         for t in &texts {
